@@ -215,6 +215,21 @@ def _gen_template(prog, rng, idx):
         if ":" in t:
             t = "int %s"
         lines.append("    " + (t % f"g{k}") + ";")
+    # templates instantiated with each other: another template applied to this
+    # template's own parameters, by value (needs the definition) or through a
+    # pointer (a forward declaration suffices, so the definition may follow)
+    others = [t for t in prog.names(("template",))
+              if all(k == "type" for k in getattr(prog.by_name[t], "param_kinds", ["type"]))]
+    for k in range(rng.below(3) if others else 0):
+        w = rng.pick(others)
+        we = prog.by_name[w]
+        args = ", ".join(rng.pick(params) for _ in range(we.nparams))
+        if rng.chance(550):
+            soft.add(w)
+            lines.append(f"    {w}<{args}>* tp{k};")
+        else:
+            hard |= we.complete
+            lines.append(f"    {w}<{args}> tv{k};")
     bases = []
     cands = prog.names(("struct",))
     if cands and rng.chance(200):
